@@ -50,7 +50,7 @@ def run(ctx):
         ctx.obligations('props/C09.v')
     model = ctx.model('html') if ok else None
     quick = ctx.tier == 'quick'
-    n_docs = 110 if quick else 1400
+    n_docs = 110 if quick else 1200
     ctx.cov['rule'] = (
         'documents rendered from random element trees (<= 60 elements, depth <= 8; paired, void, self-closed; quoted / '
         'unquoted / expression attribute values containing `>`; Angular/React attribute names; comments, CDATA, PIs, '
